@@ -492,3 +492,56 @@ rule_guard_live_tti = make_guard_rule('GUARD-live(tti)', ('tti',), 'every hit pa
                                       'time_to_idle <= now  == false  on the entry it returns (inclusive boundary, clock read in this call)')
 rule_guard_live_va = make_guard_rule('GUARD-live(valid_after)', ('va_wo', 'va_ao'), 'every hit path of the 3 sync lookups establishes  ts < valid_after == false '
                                      '(strict) for last_modified and last_accessed of the entry it returns')
+
+
+def rule_lookup_surface(ctx):
+    r = RuleResult('AUTH-lookup-surface', 'the analysed lookups are the only public way to observe what the map holds: no other public method of the caches reaches a '
+                   'map-lookup primitive (HashMap::get / get_mut, DashMap::get) except through an analysed lookup, the insert handlers or the maintenance '
+                   'run -- a second read path would need its own liveness filter, recency refresh and read recording')
+    prog = ctx.prog
+    R = get_roles(ctx)
+    looks = {n for n, _, _ in lookup_table(ctx)} | set(public_wrappers(ctx)) | {'unsync::cache::Cache::iter', 'sync::cache::Cache::iter'}
+
+    def _reads_map(m):
+        m = str(m)
+        if m in MAP_LOOKUPS[:4]:
+            return True
+        last = m.split('::')[-1].rstrip('>')
+        return (('HashMap' in m or 'DashMap' in m or 'hash_map::' in m or 'dashmap::iter' in m) and
+                last in ('iter', 'iter_mut', 'values', 'values_mut', 'keys', 'into_iter', 'next', 'get_key_value', 'get_mut', 'get'))
+    _rootof = lambda n: prog.bodies[n].root if prog.bodies[n].kind == 'closure' and prog.bodies[n].root else n
+    direct = {_rootof(n) for n in prog.bodies if any(_reads_map(m) for m in R.ext_calls.get(n, ()))}
+    # (a scan that selects what it removes is an invalidation, not a lookup)
+    from .roles import HASHMAP_REMOVE, DASHMAP_REMOVE
+    direct -= {_rootof(n) for n in prog.bodies if R.ext_calls.get(n, set()) & (HASHMAP_REMOVE | DASHMAP_REMOVE)}
+    barrier = set(looks) | set(R.maintenance) | set(R.try_sync)
+    for k_ in ('unsync.insert_handler', 'unsync.update_handler', 'sync.do_insert', 'sync.upsert'):
+        try:
+            barrier.add(named(ctx, k_))
+        except Exception:
+            pass
+    n = 0
+    for p in sorted(prog.public_api()):
+        b = prog.bodies.get(p)
+        if b is None or b.kind == 'closure' or p in looks or not p.startswith(('sync::', 'unsync::', '<sync::', '<unsync::')):
+            continue
+        if b.locals[0]['ty']['s'] == '()':
+            continue        # a pure writer (insert, invalidate*): whatever it reads, it hands nothing out
+        n += 1
+        seen, work, hit = {p}, [p], None
+        while work and hit is None:
+            x = work.pop()
+            if x in direct and x not in barrier:
+                hit = x
+                break
+            for c in prog.callees(x):
+                c0 = prog.bodies[c].root if (c in prog.bodies and prog.bodies[c].kind == 'closure' and prog.bodies[c].root) else c
+                for y in (c, c0):
+                    if y in prog.bodies and y not in seen and y not in barrier:
+                        seen.add(y); work.append(y)
+        r.instance(public_method=p, reads_map_outside_lookups=hit)
+        if hit:
+            r.violate(p, 'unanalysed-lookup', hit.split('::')[-1], 'public %s reads the map (%s) without going through one of the analysed lookups: what it observes or hands out is neither '
+                      'filtered for liveness, nor counted as a use, nor recorded' % (p, hit), where=ctx.where(hit), expected='delegate to get / contains_key / iter')
+    r.require_floor(6 if ctx.has_sync else 3, 'public methods of the caches')
+    return r
